@@ -388,6 +388,8 @@ def main(argv=None):
             json.dump(ev, f, indent=1)
     for ln in lines:
         print(ln)
+    for s_, c_ in sorted(viol_count.items()):
+        print('  signature %-70s cases=%d%s' % (s_, c_, ' (known finding)' if s_ in known_sigs else ''))
     print('%s tier=%s seed=%d evaluations=%d distinct_nontrivial=%d outcomes=%d skipped=%d new_violations=%d '
           'known=%d wall=%.1fs %s' % (prop, a.tier, seed, evaluations, distinct, len(hist), sum(skipped.values()),
                                       n_new, sum(viol_count[s] for s in seen_known), wall,
